@@ -65,6 +65,16 @@ def all_ops(run):
 def login_read(op) -> Optional[bytes]:
     """The login reply as the application read it; if the library's reads are not observable through the
     StreamReader seam, what the device sent in one piece."""
+    tr = getattr(op, "trace", None) or []
+    if op.app_reads and any(k == "r" for k, _ in tr):
+        # what was read between the operation's first write (the login frame) and its second: anything read before
+        # the first write (a client may drain stale input first) is not the login reply
+        ws = [i for i, (k, _) in enumerate(tr) if k == "w"]
+        if ws:
+            second = ws[1] if len(ws) > 1 else len(tr)
+            reads = [d for k, d in tr[ws[0] + 1:second] if k == "r"]
+            return b"".join(reads) if reads else None
+        return None
     if op.app_reads:
         return op.app_reads[0]
     if op.exchanges and op.exchanges[0].mode == "ok":
